@@ -4,6 +4,7 @@ import PysnarkModel.Driver.ProtoSnarkjs
 import PysnarkModel.Driver.ProtoGuard
 import PysnarkModel.Driver.ProtoExit
 import PysnarkModel.Driver.ProtoSelect
+import PysnarkModel.Driver.ProtoStruct
 open Pysnark Pysnark.Proto
 
 def handle (line : String) : String :=
@@ -15,6 +16,9 @@ def handle (line : String) : String :=
   | "H" :: rest => ProtoGuard.handleHist rest
   | "X" :: rest => ProtoExit.handleExit rest
   | "S" :: rest => ProtoSelect.handleSelect rest
+  | "K" :: rest => ProtoStruct.handlePack rest
+  | "NI" :: rest => ProtoStruct.handleSnark true rest
+  | "NO" :: rest => ProtoStruct.handleSnark false rest
   | _ => "bad-line"
 
 partial def loop (h : IO.FS.Stream) (out : IO.FS.Stream) : IO Unit := do
